@@ -253,6 +253,10 @@ pub struct DevState {
 }
 
 impl DevState {
+    /// `None` when construction or a push panicked
+    fn try_build(&self) -> Option<SurfaceDeviationSet2> {
+        guarded(|| self.build()).ok()
+    }
     fn build(&self) -> SurfaceDeviationSet2 {
         let mut s = if self.via_new {
             SurfaceDeviationSet2::new(self.init.iter().enumerate().map(|(i, d)| dev(i, *d)).collect())
@@ -269,7 +273,10 @@ impl DevState {
     }
     /// contents plus the identity of the elements reported as extremes (their futures coincide)
     fn key(&self) -> (Vec<i64>, i64, i64) {
-        let s = self.build();
+        let s = match self.try_build() {
+            Some(s) => s,
+            None => return (self.contents().iter().map(|v| (v * 10.0) as i64).collect(), -2, -2),
+        };
         (
             self.contents().iter().map(|v| (v * 10.0) as i64).collect(),
             s.max().map(|d| d.surface.point.x as i64).unwrap_or(-1),
@@ -293,8 +300,16 @@ fn expand_dev(st: &DevState, depth: usize, l: &mut Local, out: &mut Vec<DevState
     if depth > 0 {
         l.bucket("deviation set: non-initial state");
     }
-    let s = st.build();
-    let fresh = SurfaceDeviationSet2::new(vals.iter().enumerate().map(|(i, d)| dev(i, *d)).collect());
+    let built = guarded(|| (st.build(), SurfaceDeviationSet2::new(vals.iter().enumerate().map(|(i, d)| dev(i, *d)).collect())));
+    let (s, fresh) = match built {
+        Ok(x) => x,
+        Err(e) => {
+            // a state the implementation cannot even reach without panicking: reported, not expanded
+            l.check("deviation set construction and push return", "", false, mk, || format!("{:?}: {}", st, e));
+            return;
+        }
+    };
+    l.check("deviation set construction and push return", "", true, mk, String::new);
     l.traces += 1;
     let mx = vals.iter().cloned().fold(f64::NEG_INFINITY, f64::max);
     let mn = vals.iter().cloned().fold(f64::INFINITY, f64::min);
@@ -508,13 +523,15 @@ pub fn run(tier: Tier) -> i32 {
     cx.absorb(l);
     // engine cross-validation: the same machine explored by stateright (an independent explicit-state
     // checker driving the same real code) must find the same number of unique states and no violation
+    let bfs_clean = cx.acc.viol.is_empty();
     let (sr_states, sr_depth, sr_ok) = crate::sr::devset_model_check(dev_depth, n_threads().min(8));
     cx.extra.insert("stateright_unique_states".into(), json!(sr_states));
     cx.extra.insert("stateright_max_depth".into(), json!(sr_depth));
     cx.extra.insert("stateright_properties_hold".into(), json!(sr_ok));
     // stateright explores states with up to `dev_depth` pushes: exactly the states the BFS expanded
     cx.extra.insert("devset_states_expanded".into(), json!(dev_expanded));
-    if sr_states as u64 != dev_expanded {
+    // (stateright stops at its first discovery, so the counts are comparable only on a clean exploration)
+    if bfs_clean && sr_ok && sr_states as u64 != dev_expanded {
         cx.acc.machinery.push(format!("engine cross-validation failed: stateright found {} unique deviation-set states, the harness BFS expanded {}", sr_states, dev_expanded));
     }
     {
